@@ -19,23 +19,27 @@ import vlib
 
 
 def body(c):
+    if D.replay_recorded(c):
+        return
     q = c.quick
     inv = D.INV_ALL + ["PowerSafeManifest"]
     if q:
         D.disk_mc(c, "power:2commits+rotate+compact", invariants=inv, SyncWrites="TRUE", CrashKinds=D.POWER_KINDS,
                   MaxCommits=2, timeout=400)
     else:
-        D.disk_mc(c, "power:3commits+rotate+compact+gc", invariants=inv, SyncWrites="TRUE", CrashKinds=D.POWER_KINDS,
-                  MaxCommits=3, MaxGC=1, timeout=1500)
-        D.disk_mc(c, "power:2commits+close+2crashes", invariants=inv, SyncWrites="TRUE",
-                  CrashKinds='{"power", "power-content", "kill"}', MaxCommits=2, MaxClose=1, MaxCrash=2, timeout=1500)
+        D.disk_mc(c, "power:2commits+rotate+compact+gc+close", invariants=inv, SyncWrites="TRUE", CrashKinds=D.POWER_KINDS,
+                  MaxCommits=2, MaxGC=1, MaxClose=1, keysets="MCKeySets2", timeout=1800)
+        D.disk_mc(c, "power:2commits+2crashes", invariants=inv, SyncWrites="TRUE",
+                  CrashKinds='{"power", "power-content"}', MaxCommits=2, MaxCrash=2, timeout=1800)
     D.disk_mc(c, "code-as-is:no-dirsync-after-create", invariants=inv, expect_violation="PrefixRecovered",
               SyncWrites="TRUE", CrashKinds='{"power"}', DirSyncOnCreate="FALSE", MaxCompact=0, timeout=300)
-    n = 8 if q else 100
-    cases = D.generate(c, "sync-workloads", n, c.seed, workers=4, SyncModes="{TRUE}", Drops="{}")
+    n = 6 if q else 40
+    needs = ("flush", "compactL0", "rotate", "gc", "reopen", "write:big", "write:small", "write:del")
+    pool = D.generate(c, "sync-workloads", max(6 * n, 60), c.seed, workers=4, SyncModes="{TRUE}", Drops="{}")
+    cases = D.select_covering(pool, n, needs, c.seed)
     hist = D.op_histogram(cases)
     c.cov["workload_histogram"] = hist
-    for need in ("flush", "compactL0", "rotate", "write:big", "write:small"):
+    for need in needs:
         if not hist.get(need):
             raise vlib.Inconclusive("generated workloads contain no %s" % need)
     results, nchecks, classes = D.crash_campaign(c, cases, D.PL_STRICT, "power-loss", full_confirm=1 if q else 3)
